@@ -47,10 +47,18 @@ def run_laws(ctx, keys, seed):
         if missing:
             raise RuntimeError('IMPL harness produced no result for %s (rc=%s): %s' % (missing[:3], rc, se[-1500:]))
         return res
+    def cross():
+        rc, so, se = _impl(['cross', str(seed), tier])
+        lines = [l for l in so.split('\n') if l.startswith('{')]
+        if not lines:
+            raise RuntimeError('IMPL cross-object run produced no result (rc=%s): %s' % (rc, se[-1500:]))
+        return json.loads(lines[-1])
     out = {}
-    with ThreadPoolExecutor(k) as ex:
+    with ThreadPoolExecutor(k + 1) as ex:
+        fc = ex.submit(cross)
         for r in ex.map(one, shards):
             out.update(r)
+        out['<cross-object>'] = fc.result()
     return out
 
 
@@ -67,6 +75,17 @@ def signature(key, law, detail):
 def floor(ctx, keys, seed):
     """IMPL vs SPEC: the laws of the property evaluated on the implementation for every class and input."""
     res = run_laws(ctx, keys, seed)
+    cross = res.pop('<cross-object>')
+    ctx.count('cross-object:objects-kept', cross['objects'])
+    ctx.count('cross-object:rechecks', cross['rechecks'])
+    ctx.evals += cross['rechecks']
+    ctx.coverage['cross_object'] = ('%d classes parsed and serialised interleaved over %d epochs (class order reshuffled each epoch); all %d objects are kept and after every batch '
+                                    'of another class their field values and pack() bytes must be unchanged; no two kept objects may share a mutable sub-object '
+                                    '(Timestamp, MeasurementDetails, list, array, bytearray)' % (cross['classes'], cross['epochs'], cross['objects']))
+    for vk, v in sorted(cross['violations'].items()):
+        ctx.count('law-failures:' + v['law'], v['count'])
+        ctx.violation(signature(v['key'], v['law'], v['detail']), '%s   [first: %s %s; then: %s %s]' % (v['text'], v['key'], v['hex'][:64], v['then_key'], v['then_hex'][:64]),
+                      {'key': v['key'], 'hex': v['hex'], 'then_key': v['then_key'], 'then_hex': v['then_hex'], 'law': v['law'], 'detail': v['detail'], 'impl': v['text']})
     never_parsed, law_only = [], []
     for key in keys:
         d = res[key]
@@ -517,13 +536,19 @@ def run(ctx):
                             'library-allocated buffer.' % ('0..16' if ctx.thorough else '{0,1,3,8}'))
     ctx.coverage['exhaustive'] = False
     ctx.trusted_base += ['harness/py/c01_laws.py (law evaluation, canonical field comparison: floats by bit pattern with all NaNs equal, enums by value, '
-                         'underscore-prefixed attributes and MessageHeader.reserved (padding, zeroed by pack by design) ignored)']
+                         'underscore-prefixed attributes and MessageHeader.reserved (padding, zeroed by pack by design) ignored; cross-object stage: objects kept '
+                         'alive across interleaved parses of all classes, identity-based aliasing test)']
 
 
 def replay(ctx, rec):
     case = rec.get('case', rec.get('detail', {}).get('case', rec))
     if 'key' not in case or not case.get('hex') and case.get('hex') != '':
         print(json.dumps(rec, indent=1)[:4000])
+        return 0
+    if case.get('then_key'):
+        rc, so, se = _impl(['cross-one', case['key'], case['hex'], case['then_key'], case['then_hex']])
+        print('IMPL + SPEC (an object parsed first must not change when another message is parsed and serialised afterwards):')
+        print(so)
         return 0
     rc, so, se = _impl(['one', case['key'], case['hex']])
     print('IMPL + SPEC (the laws of the property evaluated on the implementation; "viol" lists the laws that fail):')
